@@ -105,15 +105,17 @@ GInit == /\ pc = "ginit"
          /\ UNCHANGED <<n, mode, par, stack, reduced, budget, tl, runs, far, prio, ins, result, steps>>
 
 \* one iteration of `while curved and stack` in _grdp: refine, then test the new retained set
-GrdpStep == /\ pc = "grdp" /\ curved /\ stack # <<>>
-            /\ \E i \in 0..(n-1), pl \in 0..PrioMax, pr \in 0..PrioMax :
-                 /\ Refine(i, pl, pr)
-                 /\ IF EverySecond /\ Len(reduced') % 2 = 1
-                    THEN curved' = curved /\ cst' = cst
-                    ELSE \E lev \in CostChoices(reduced') :
-                           /\ cst' = Memo(cst, reduced', lev)
-                           /\ curved' = ~(lev < tl)
+\* (the arguments are what a recorded iteration can tell: Trace_FixedSteps binds them from the logged snapshot)
+GrdpStepA(i, pl, pr) ==
+            /\ pc = "grdp" /\ curved /\ stack # <<>>
+            /\ Refine(i, pl, pr)
+            /\ IF EverySecond /\ Len(reduced') % 2 = 1
+               THEN curved' = curved /\ cst' = cst
+               ELSE \E lev \in CostChoices(reduced') :
+                      /\ cst' = Memo(cst, reduced', lev)
+                      /\ curved' = ~(lev < tl)
             /\ UNCHANGED <<n, mode, par, budget, tl, runs, ins, result, pc>>
+GrdpStep == \E i \in 0..(n-1), pl \in 0..PrioMax, pr \in 0..PrioMax : GrdpStepA(i, pl, pr)
 
 GrdpEnd == /\ pc = "grdp" /\ (~curved \/ stack = <<>>)
            /\ \/ /\ mode = "grdp"
@@ -135,10 +137,12 @@ MpNext == /\ pc = "mpnext"
                             ELSE /\ tl' = Head(runs) /\ pc' = "ginit" /\ budget' = budget
           /\ UNCHANGED <<n, mode, par, runs, far, prio, cst, ins, result>>
 
-FixedStep == /\ pc = "fixed" /\ budget > 0 /\ stack # <<>>
-             /\ \E i \in 0..(n-1), pl \in 0..PrioMax, pr \in 0..PrioMax : Refine(i, pl, pr)
+FixedStepA(i, pl, pr) ==
+             /\ pc = "fixed" /\ budget > 0 /\ stack # <<>>
+             /\ Refine(i, pl, pr)
              /\ budget' = budget - 1
              /\ UNCHANGED <<n, mode, par, curved, tl, runs, cst, ins, result, pc>>
+FixedStep == \E i \in 0..(n-1), pl \in 0..PrioMax, pr \in 0..PrioMax : FixedStepA(i, pl, pr)
 FixedEnd == /\ pc = "fixed" /\ (budget <= 0 \/ stack = <<>>)
             /\ result' = reduced /\ pc' = "done"
             /\ UNCHANGED <<n, mode, par, stack, reduced, budget, curved, tl, runs, far, prio, cst, ins, steps>>
